@@ -262,10 +262,12 @@ def catalogue():
     """housekeeping against every other operation, for a table with an attached, a lingering and an expired stream"""
     table = {"s0": {"owner": "A", "items": 2, "age": 5, "gone": 1}, "s1": {"owner": None, "items": 2, "age": 5, "gone": 1},
              "s2": {"owner": None, "items": 2, "age": 50, "gone": 50}}
-    others = [["next", "s0", "A"], ["next", "s1", "B"], ["next", "s2", "B"], ["close", "s0"], ["close", "s1"], ["disc", "A"], ["open", "B"]]
+    table = dict(table, s3={"owner": "A", "items": 2, "age": 50, "gone": 1})        # attached and (with a lifetime configured) past its lifetime
+    others = [["next", "s0", "A"], ["next", "s1", "B"], ["next", "s2", "B"], ["close", "s0"], ["close", "s1"], ["disc", "A"], ["open", "B"], ["next", "s3", "A"], ["close", "s3"]]
     for lifetime, linger in ((0, 30), (10, 30), (10, 0)):
         for o in others:
             yield {"layer": "table", "table": table, "ops": [["hk"], o], "lifetime": lifetime, "linger": linger}
+            yield {"layer": "table", "table": table, "ops": [o, ["hk"]], "lifetime": lifetime, "linger": linger}
         for a, b in itertools.permutations(others, 2):
             if a[0] == b[0] == "next" and a[1] == b[1]:
                 continue
